@@ -103,8 +103,10 @@ def run(ctx):
     for i, c in enumerate(cases):
         c.id = f"o{i}"
         exported.append(dtypes.Export(c).case(c.id))
-        for k in range(3 if ctx.quick else 5):
-            m = dtypes.mutate(c, rng)
+        nm = 3 if ctx.quick else 5
+        for k in range(nm + 1):
+            # the last one is always an arm removal (if the module has a match): exhaustiveness in every position a match can take
+            m = dtypes.mutate(c, rng) if k < nm else dtypes.mutate(c, rng, kind="arm")
             if m:
                 mc, d = m
                 mc.id = f"m{i}_{k}"
